@@ -217,21 +217,34 @@ def check_history(case):
 @st.composite
 def _persist_cases(draw):
     docs = draw(st.lists(st.one_of(G.payloads, st.builds(GM.wrap, G.payloads)), min_size=2, max_size=6))
-    return {"docs": docs, "config": draw(configrun.configs)}
+    styles = [draw(st.sampled_from(["utf8", "utf8", "compact", "spaces", "crlf", "unsorted"])) for _ in docs]
+    cfg = draw(configrun.configs)
+    if draw(st.integers(0, 2)) == 0:
+        cfg = configrun.with_ascii_locale(cfg)
+    return {"docs": docs, "styles": styles, "config": cfg}
 
 
 def check_persist_config(case):
     import hashlib
-    got = configrun.run_child("persist", case["docs"], case["config"])
+    raws = [{"rawfile": GR.spell(d_, st_, canon)} for d_, st_ in zip(case["docs"], case.get("styles", []))]
+    got = configrun.run_child("persist", case["docs"] + raws, case["config"])
     if not isinstance(got, list):
         raise Violation("child interpreter failed under %r: %s" % (case["config"], got.get("stderr", "")[-300:]), bucket="child failed")
+    for i, (doc, (raw, back)) in enumerate(zip(case["docs"], got[len(case["docs"]):])):
+        if back != hashlib.sha256(canon(doc)).hexdigest():
+            raise Violation("under configuration %r, loading a file that spells document %d as an external tool would (%s) gives %s"
+                            % ({k: v for k, v in case["config"].items() if v}, i, case["styles"][i],
+                               raw if raw.startswith("raise") else "a different JSON value"), bucket="load depends on configuration")
     for i, (doc, (raw, back)) in enumerate(zip(case["docs"], got)):
         want = hashlib.sha256(canon(doc)).hexdigest()
         if raw != want or back != want:
             raise Violation("under configuration %r, writing document %d over an existing file and loading it back gives %s / %s instead "
                             "of the canonical bytes" % ({k: v for k, v in case["config"].items() if v}, i, raw[:24], back[:24]),
                             bucket="persistence depends on configuration")
-    return {"nontrivial": True, "labels": ["opt=%s" % case["config"].get("PYTHONOPTIMIZE"), "warnings=%s" % case["config"].get("PYTHONWARNINGS")]}
+    ascii_locale = case["config"].get("LC_ALL") in ("C", "POSIX") and case["config"].get("PYTHONUTF8") != "1" and \
+        case["config"].get("PYTHONCOERCECLOCALE") == "0"
+    return {"nontrivial": True, "labels": ["opt=%s" % case["config"].get("PYTHONOPTIMIZE"), "warnings=%s" % case["config"].get("PYTHONWARNINGS"),
+                                           "ascii-locale" if ascii_locale else "utf8-locale"]}
 
 
 UNITS = [
